@@ -33,3 +33,12 @@ fn c11_txid_default() {
     assert!(id.next().to_u16() == 1);
     kani::cover!(true, "reached");
 }
+
+/// a `FrameWriter` whose buffer holds arbitrary residue of earlier traffic: one step from an ARBITRARY
+/// writer state => replies cannot depend on what was sent before (sequences of any length)
+pub(crate) fn any_writer(rtu: bool) -> FrameWriter {
+    FrameWriter {
+        format_type: if rtu { FormatType::Rtu } else { FormatType::Tcp },
+        buffer: kani::any(),
+    }
+}
